@@ -1,4 +1,5 @@
 import HpoProofs.Similarity
+import HpoProofs.RoundedSim
 import HpoProofs.Distance
 /-!
 # C04 — built-in term similarities follow their definitions, symmetric, finite, ≥ 0
@@ -16,8 +17,10 @@ Ancestor groups / annotation sets are sorted id vectors (`Sorted`, C12/C01's inv
 only needed for the argument-order symmetry (both orders then walk the same vector).
 No bound on the size of the ontology, the ancestor sets or the ids.
 
-PARTIAL (see `lib/propmeta.py`): the theorems are over ℝ; f32 rounding and the accuracy of
-`logf`/`expf` are covered only by the tolerance of the correspondence check.
+PARTIAL (see `lib/propmeta.py`): the formula theorems are over ℝ; how close the f32 VALUES are
+(rounding, accuracy of `logf`/`expf`) is covered only by the tolerance of the correspondence check.
+The symmetry / definedness / sign / range / self-similarity clauses are proved a second time for
+EVERY correctly-rounding arithmetic (`C04_*_rounded`, section "the order / sign / symmetry clauses").
 -/
 namespace Hpo.C04
 open Hpo Hpo.Sim Hpo.Group Hpo.NumReal
@@ -553,6 +556,183 @@ theorem C04_symm_builtin (o : Onto) {rank : ℕ → ℕ} (wf : PathWF o rank) {i
       simp only [builtin, hid, hid', hor, if_false] at h ⊢
       rw [C04_symm_mutation k b a hkb hka]; exact h
 
+/-! ## the order / sign / symmetry clauses for EVERY correctly-rounding arithmetic
+
+`R : Rounding` (`HpoProofs/Rounded.lean`): explicit hypotheses on a rounding function `rnd`
+(monotone, integers up to 2^24 exact, no flush to zero in the normal range) and on the library
+`ln` / `exp` (monotone `lg` with `lg 1 = 0`, `ex x ≤ 1` for `x ≤ 0`; NOT exact).  The SAME model
+functions are evaluated at `RVal R`, where every `+ - * /` and integer conversion is followed by
+`rnd`.  The information content is an arbitrary `ic : ℕ → RVal R` with C03's (rounded)
+conclusions as hypotheses: `0 ≤ ic i`, `MonoR ic t`.  What remains trusted: `f32` arithmetic with
+the platform libm is such an `R` and does not overflow on these values. -/
+
+/-- Resnik only compares, so it is EXACT under every rounding: the largest ic among the inclusive
+common ancestors (0 if none), attained, ≥ 0, symmetric, ≤ the ic of either argument -/
+theorem C04_resnik_rounded (R : Rounding) (ic : ℕ → RVal R) (a b : Term) :
+    (∀ c ∈ a.allCommonAncestorIds b, (ic c).v ≤ (resnik ic a b).v) ∧ 0 ≤ (resnik ic a b).v ∧
+    ((resnik ic a b).v = 0 ∨ ∃ c ∈ a.allCommonAncestorIds b, resnik ic a b = ic c) ∧
+    (Sorted a.allParents → Sorted b.allParents → resnik ic a b = resnik ic b a) ∧
+    (MonoR ic a → 0 < (ic a.id).v → (resnik ic a b).v ≤ (ic a.id).v) ∧
+    (MonoR ic b → 0 < (ic b.id).v → (resnik ic a b).v ≤ (ic b.id).v) := by
+  refine ⟨fun c hc => le_maxGoR_mem ic _ _ c hc, resnikR_nonneg ic a b, ?_,
+    resnikR_comm ic a b, resnikR_le_left ic a b, resnikR_le_right ic a b⟩
+  rcases maxGoR_attained ic (Num.ofNat 0) (a.allCommonAncestorIds b) with h | h
+  · left; unfold resnik; rw [h]; simp
+  · right; exact h
+
+/-- the rounded Jiang-Conrath denominator `rnd(rnd(rnd(ic a + ic b) − rnd(2·resnik)) + 1)` is
+still ≥ 1 past the two guards (monotonicity of each rounding), so `1 / denominator` is defined and
+lies in [0, 1] -/
+theorem C04_jc_rounded (R : Rounding) (ic : ℕ → RVal R) (a b : Term) (hn : ∀ i, 0 ≤ (ic i).v)
+    (hma : MonoR ic a) (hmb : MonoR ic b) :
+    ((ic a.id).v ≠ 0 → (ic b.id).v ≠ 0 → 1 ≤ (jcDenom ic a b).v) ∧
+    ∃ v, jc ic a b = some v ∧ 0 ≤ v.v ∧ v.v ≤ 1 :=
+  ⟨jcDenomR_ge_one ic a b hn hma hmb, jcR_defined_range ic a b hn hma hmb⟩
+
+/-- Distance under rounding: `rnd (1 / rnd (rnd n + 1))` is defined for EVERY path length and
+lies in [0, 1] -/
+theorem C04_distance_rounded (R : Rounding) (d : Option ℕ) :
+    ∃ v : RVal R, distanceSim d = some v ∧ 0 ≤ v.v ∧ v.v ≤ 1 :=
+  distanceSimR_defined_range d
+
+/-- the value an algorithm computes, at the rounded instance -/
+noncomputable def coreR (R : Rounding) (alg : Alg) (k : Kind) (ic : ℕ → RVal R) (d : Option ℕ)
+    (a b : Term) : Option (RVal R) :=
+  match alg with
+  | .graphIc => graphIc ic a b
+  | .resnik => some (resnik ic a b)
+  | .lin => lin ic a b
+  | .jc => jc ic a b
+  | .relevance => relevance ic a b
+  | .infoCoef => infoCoef ic a b
+  | .distance => distanceSim d
+  | .mutation => mutation k a b
+
+/-- whenever `<Builtins as Similarity>::calculate` returns, it returns `coreR` (the dispatch
+adds panic checks only) -/
+theorem C04_builtin_value_rounded (R : Rounding) (o : Onto) (alg : Alg) (k : Kind)
+    (ic : ℕ → RVal R) (a b : Term) (r : Option (RVal R)) (h : builtin o alg k ic a b = .ok r) :
+    ∃ d, (alg = .distance → o.distToTerm a b = .ok d) ∧ r = coreR R alg k ic d a b := by
+  cases alg
+  case distance =>
+    simp only [builtin] at h
+    split at h
+    · rename_i d hd
+      refine ⟨d, fun _ => hd, ?_⟩
+      split at h
+      · split at h
+        · injection h with h; exact h.symm
+        · cases h
+      · injection h with h; exact h.symm
+    all_goals cases h
+  all_goals
+    refine ⟨none, by simp, ?_⟩
+    simp only [builtin] at h
+    repeat' split at h
+    all_goals first
+      | cases h; done
+      | (injection h with h; exact h.symm)
+
+/-- **never NaN / inf, never negative under rounding**: every algorithm divides only by non-zero
+ROUNDED denominators and returns a value ≥ 0, for every pair of terms, kind and path length -/
+theorem C04_defined_nonneg_rounded (R : Rounding) (alg : Alg) (k : Kind) (ic : ℕ → RVal R)
+    (d : Option ℕ) (a b : Term) (hn : ∀ i, 0 ≤ (ic i).v) (hma : MonoR ic a) (hmb : MonoR ic b) :
+    ∃ v, coreR R alg k ic d a b = some v ∧ 0 ≤ v.v := by
+  cases alg
+  case graphIc => exact graphIcR_defined_nonneg ic a b hn
+  case resnik => exact ⟨_, rfl, resnikR_nonneg ic a b⟩
+  case lin => exact linR_defined_nonneg ic a b hn
+  case jc =>
+    obtain ⟨v, hv, h0, _⟩ := jcR_defined_range ic a b hn hma hmb
+    exact ⟨v, hv, h0⟩
+  case relevance => exact relevanceR_defined_nonneg ic a b hn
+  case infoCoef => exact infoCoefR_defined_nonneg ic a b hn
+  case distance =>
+    obtain ⟨v, hv, h0, _⟩ := distanceSimR_defined_range (R := R) d
+    exact ⟨v, hv, h0⟩
+  case mutation => exact mutationR_defined_nonneg k a b
+
+/-- **argument order is irrelevant under rounding**, bit for bit: rounded `+` and `*` are
+commutative, the maximum fold and both ancestor vectors are the same for (a, b) and (b, a) -/
+theorem C04_symm_rounded (R : Rounding) (alg : Alg) (k : Kind) (ic : ℕ → RVal R) (d : Option ℕ)
+    (a b : Term) (ha : Sorted a.allParents) (hb : Sorted b.allParents)
+    (hka : Sorted (a.ann k)) (hkb : Sorted (b.ann k)) :
+    coreR R alg k ic d a b = coreR R alg k ic d b a := by
+  cases alg
+  case graphIc => exact graphIcR_symm ic a b ha hb
+  case resnik => simp only [coreR, resnikR_comm ic a b ha hb]
+  case lin => exact linR_symm ic a b ha hb
+  case jc => exact jcR_symm ic a b ha hb
+  case relevance => exact relevanceR_symm ic a b ha hb
+  case infoCoef => exact infoCoefR_symm ic a b ha hb
+  case distance => rfl
+  case mutation => exact mutationR_symm k a b hka hkb
+
+/-- a term compared with itself scores exactly 1 (`rnd 1 = 1`; Distance: `rnd (1 / rnd (0 + 1))`) -/
+theorem C04_self_rounded (R : Rounding) (k : Kind) (ic : ℕ → RVal R) (a : Term) :
+    coreR R .graphIc k ic none a a = some ⟨1⟩ ∧ coreR R .jc k ic none a a = some ⟨1⟩ ∧
+    coreR R .distance k ic (some 0) a a = some ⟨1⟩ ∧ coreR R .mutation k ic none a a = some ⟨1⟩ := by
+  have h1 : (Num.ofNat 1 : RVal R) = ⟨1⟩ := by apply RVal.ext'; simp
+  refine ⟨?_, ?_, ?_, ?_⟩
+  · simp [coreR, graphIc, h1]
+  · simp [coreR, jc, h1]
+  · simp only [coreR]; rw [distanceSimR_self, h1]
+  · simp [coreR, mutation, h1]
+
+/-- argument order is irrelevant through the whole dispatch under rounding, including the panic
+checks: if `S(a, b)` returns a value then `S(b, a)` returns the same value -/
+theorem C04_symm_builtin_rounded (R : Rounding) (o : Onto) {rank : ℕ → ℕ} (wf : PathWF o rank)
+    {i j : ℕ} (alg : Alg) (k : Kind) (ic : ℕ → RVal R) (a b : Term)
+    (hai : o.get i = some a) (hbj : o.get j = some b)
+    (ha : Sorted a.allParents) (hb : Sorted b.allParents)
+    (hka : Sorted (a.ann k)) (hkb : Sorted (b.ann k)) (r : Option (RVal R))
+    (h : builtin o alg k ic a b = .ok r) : builtin o alg k ic b a = .ok r := by
+  have hc : b.allCommonAncestorIds a = a.allCommonAncestorIds b := common_comm b a hb ha
+  have hu : b.unionAncestorIds a = a.unionAncestorIds b := union_comm b a hb ha
+  have hadd : Num.add (ic b.id) (ic a.id) = Num.add (ic a.id) (ic b.id) := NumR.add_comm _ _
+  have hor : bitor (b.ann k) (a.ann k) = bitor (a.ann k) (b.ann k) := bitor_comm' _ _ hkb hka
+  cases alg
+  case distance =>
+    obtain ⟨d, hd, _⟩ := C04_builtin_value_rounded R o .distance k ic a b r h
+    have hd' : o.distToTerm b a = .ok d := by rw [← Onto.distToTerm_symm wf hai hbj]; exact hd rfl
+    have hd0 := hd rfl
+    simp only [builtin, hd0] at h
+    simp only [builtin, hd']
+    exact h
+  case graphIc =>
+    by_cases hid : a.id = b.id
+    · simp only [builtin, hid, if_true] at h ⊢
+      rw [graphIcR_symm ic b a hb ha]; exact h
+    · have hid' : ¬ b.id = a.id := fun e => hid e.symm
+      simp only [builtin, hid, hid', hc, hu, if_false] at h ⊢
+      rw [graphIcR_symm ic b a hb ha]; exact h
+  case resnik =>
+    simp only [builtin, hc] at h ⊢
+    rw [resnikR_comm ic b a hb ha]; exact h
+  case lin =>
+    simp only [builtin, hc, hadd] at h ⊢
+    rw [linR_symm ic b a hb ha]; exact h
+  case jc =>
+    by_cases hid : a.id = b.id
+    · simp only [builtin, hid, if_true] at h ⊢
+      rw [jcR_symm ic b a hb ha]; exact h
+    · have hid' : ¬ b.id = a.id := fun e => hid e.symm
+      simp only [builtin, hid, hid', hc, if_false] at h ⊢
+      rw [jcR_symm ic b a hb ha, Bool.or_comm]; exact h
+  case relevance =>
+    simp only [builtin, hc] at h ⊢
+    rw [relevanceR_symm ic b a hb ha]; exact h
+  case infoCoef =>
+    simp only [builtin, hc] at h ⊢
+    rw [infoCoefR_symm ic b a hb ha]; exact h
+  case mutation =>
+    by_cases hid : a.id = b.id
+    · simp only [builtin, hid, if_true] at h ⊢
+      rw [mutationR_symm k b a hkb hka]; exact h
+    · have hid' : ¬ b.id = a.id := fun e => hid e.symm
+      simp only [builtin, hid, hid', hor, if_false] at h ⊢
+      rw [mutationR_symm k b a hkb hka]; exact h
+
 /-- `Builtins::new`: every documented name and alias selects its algorithm, anything else fails -/
 theorem C04_dispatch_names :
     algOfLower "graphic" = some .graphIc ∧ algOfLower "resnik" = some .resnik ∧
@@ -601,5 +781,28 @@ example : resnik exIc exA exB = 1 ∧ lin exIc exA exB = some (2 / 3) ∧
     have h1 : bitor (exA.ann .gene) (exB.ann .gene) = [7, 9] := by decide
     have h2 : bitand (exA.ann .gene) (exB.ann .gene) = [9] := by decide
     rw [h1, h2]; norm_num [exA, exB]; decide
+
+/-- the hypotheses of the `_rounded` theorems hold for the same fragment in EVERY rounding regime
+(here with the values 0, 1, 2, which are representable everywhere), in particular in the inexact
+`Rounding.grid`; there Jiang-Conrath of the two terms is defined and lies in [0, 1] -/
+noncomputable def exIcR (R : Rounding) : ℕ → RVal R := fun i => ⟨exIc i⟩
+
+theorem C04_rounded_hypotheses_satisfiable (R : Rounding) :
+    (∀ i, 0 ≤ (exIcR R i).v) ∧ MonoR (exIcR R) exA ∧ MonoR (exIcR R) exB := by
+  have e : ∀ i, (exIcR R i).v = exIc i := fun _ => rfl
+  refine ⟨?_, ?_, ?_⟩
+  · intro i; rw [e]; unfold exIc; split <;> [norm_num; (split <;> norm_num)]
+  · intro _ c hc
+    simp only [exA, List.mem_singleton] at hc
+    subst hc; rw [e, e]; norm_num [exIc, exA]
+  · intro _ c hc
+    simp only [exB, List.mem_cons, List.not_mem_nil, or_false] at hc
+    rcases hc with rfl | rfl | rfl <;> rw [e, e] <;> norm_num [exIc, exB]
+
+example : ∃ v : RVal Rounding.grid, coreR Rounding.grid .jc .gene (exIcR _) none exA exB = some v ∧
+    0 ≤ v.v :=
+  C04_defined_nonneg_rounded Rounding.grid .jc .gene (exIcR _) none exA exB
+    (C04_rounded_hypotheses_satisfiable _).1 (C04_rounded_hypotheses_satisfiable _).2.1
+    (C04_rounded_hypotheses_satisfiable _).2.2
 
 end Hpo.C04
